@@ -93,6 +93,8 @@ def norm_index(E, idx, n, what="index"):
             z = z3.IntVal(idx)
     else:
         zi = zint(idx)
+        if E.spec:
+            return zi          # specification indexing is mathematical (no negative wrap-around)
         z = z3.If(zi < 0, n + zi, zi)
     ok = z3.And(z >= 0, z < n)
     if E.spec:
@@ -902,6 +904,25 @@ def sf_old(E, n):
         E.frame.env = env
 
 
+def sf_oldlist(E, n):
+    """oldlist(expr): snapshot (fresh list) of the contents the list denoted by expr had at entry"""
+    if E.heap_old is None:
+        raise Unsupported("oldlist() outside a post-state")
+    heap, env = E.heap, E.frame.env
+    E.heap = dict(E.heap_old)
+    E.frame.env = dict(E.env_old)
+    try:
+        lv = E.eval(n.args[0])
+        if not isinstance(lv, ListV):
+            raise Unsupported("oldlist of non-list")
+        ln = E.llen(lv)
+        arrs = E.larrs(lv) if lv.et is not None else None
+    finally:
+        E.heap = heap
+        E.frame.env = env
+    return E.new_list(lv.et, ln, arrs)
+
+
 def sf_implies(E, n):
     a = E.tobool(E.truth(E.eval(n.args[0])))
     if z3.is_false(z3.simplify(a)):
@@ -932,10 +953,36 @@ def _quant(E, n, forall):
         c = z3.Const("%s!b%d" % (nm, next(E.counter)), sorts(ty)[0])
         bound.append(c)
         E.frame.env[nm] = unpack(ty, [c], None)
+    guards = []
+    benv = {nm: E.frame.env[nm] for nm in names}
+    for i, nm in enumerate(names):
+        v = E.frame.env[nm]
+        if isinstance(v, (RefV, ListV, DictV)):
+            guards.append(v.t > 0)          # references range over objects of the pre-state
     try:
         body = E.tobool(E.truth(E.eval(lam.body)))
     finally:
         E.frame.env = saved
+    if guards:
+        body = z3.Implies(z3.And(*guards), body) if forall else z3.And(*(guards + [body]))
+    pats = []
+    for kw in n.keywords:
+        if kw.arg == "trigger" and isinstance(kw.value, ast.Lambda):
+            env2 = dict(E.frame.env)
+            for nm, c in zip(names, bound):
+                ty = INT
+                E.frame.env[nm] = benv[nm]
+            try:
+                tv = E.eval(kw.value.body)
+            finally:
+                E.frame.env = env2
+            tvs = tv if isinstance(tv, tuple) else (tv,)
+            terms = [x.t for x in tvs if hasattr(x, "t")]
+            if terms:
+                pats.append(z3.MultiPattern(*terms) if len(terms) > 1 else terms[0])
+    if pats:
+        q = z3.ForAll(bound, body, patterns=pats) if forall else z3.Exists(bound, body, patterns=pats)
+        return Sym(q, "bool")
     q = z3.ForAll(bound, body) if forall else z3.Exists(bound, body)
     return Sym(q, "bool")
 
@@ -953,7 +1000,7 @@ def sf_raised(E, n):
     return E.frame.env.get("__raised__", False)
 
 
-SPECIAL_FORMS = {"old": sf_old, "implies": sf_implies, "iff": sf_iff, "forall": sf_forall, "exists": sf_exists}
+SPECIAL_FORMS = {"oldlist": sf_oldlist, "old": sf_old, "implies": sf_implies, "iff": sf_iff, "forall": sf_forall, "exists": sf_exists}
 EXEC_SPECIALS = set()
 
 
